@@ -405,7 +405,11 @@ def process_fn(src, unit, key, spec, s, hp, ob, cb, add_edit, canary, disabled_r
                 raise AnchorLost('%s: loop #%d is not a for loop' % (key, ordinal))
             add_edit(kwp + mt.end(), kwp + mt.end(), gname + ': ', prio=1)
         if spec.get('loop_count') is not None and spec['loop_count'] != len(found):
-            raise AnchorLost('%s: expected %d loops, found %d' % (key, spec['loop_count'], len(found)))
+            if len(found) < spec['loop_count']:
+                raise AnchorLost('%s: expected %d loops, found %d' % (key, spec['loop_count'], len(found)))
+            # extra loops: the invariants may sit on the wrong loops and the new loop has none.  The function is verified as it
+            # is, but a failure is trusted only together with a concrete failing input (same rule as for lost hint anchors)
+            info.degraded.append('%s: expected %d loops, found %d' % (key, spec['loop_count'], len(found)))
 
     # ghost inserts at textual anchors.  If any anchor of the function is lost, none of its hint inserts is applied
     # (a hint placed next to changed code may not even compile); the function is then verified without hints.
